@@ -12,7 +12,7 @@
     LONGEST prefix that is a StrDecimalLiteral), so the theorems carry no hypothesis. *)
 From Coq Require Import List.
 From JL Require Import Base.Json Base.Dec2Flt Base.Monad Model.Eval Spec.Specs Spec.RefEval.
-From JL Require Import Proofs.MonadLaws Proofs.OpsCorrect Proofs.Totality Proofs.Scan Proofs.Scan2.
+From JL Require Import Base.Lits Proofs.MonadLaws Proofs.OpsCorrect Proofs.Totality Proofs.Scan Proofs.Scan2 Proofs.Subst.
 From Coq Require Import String NArith ZArith.
 Local Open Scope string_scope.
 Import ListNotations.
@@ -30,6 +30,37 @@ Proof.
   unfold default_fuel. auto with arith.
 Qed.
 Print Assumptions C04_apply_is_reference.
+
+(** the substitution law: when the operands of an eager operator that does not consult the
+    data evaluate to [vs] (writing the lines [logs]), the rule with every operand replaced by a
+    reference {"var":[i]} into the precomputed values gives the same outcome and the same lines.
+    First on the reference semantics (an equation), then for the model of the implementation. *)
+Theorem C04_substitution :
+  forall o k args d logs vs,
+    name_of k = Some o -> data_free o = true -> documented o (List.length args) = true ->
+    mapM (fun a => ref_eval a d) args = (logs, Ok vs) ->
+    (Z.of_nat (List.length vs) < 2 ^ 63)%Z ->
+    ref_eval (Obj [(k, Arr args)]) d = tapp logs (ref_eval (Obj [(k, Arr (refs (List.length args)))]) (Arr vs)).
+Proof. exact substitution_law. Qed.
+Print Assumptions C04_substitution.
+
+Theorem C04_substitution_model :
+  forall o k args d logs vs,
+    name_of k = Some o -> data_free o = true -> documented o (List.length args) = true ->
+    mapM (fun a => ref_eval a d) args = (logs, Ok vs) ->
+    (Z.of_nat (List.length vs) < 2 ^ 63)%Z ->
+    meq (apply (Obj [(k, Arr args)]) d)
+        (tapp logs (apply (Obj [(k, Arr (refs (List.length args)))]) (Arr vs))).
+Proof. exact (substitution_law_model C04_apply_is_reference). Qed.
+Print Assumptions C04_substitution_model.
+
+(** its premises are satisfiable, with a line logged on the way *)
+Example C04_substitution_nonvacuous :
+  let args := [Obj [(lit "log", Arr [Str (lit "x")])]; Obj [(lit "+", Arr [Num (PosInt 1%N); Num (PosInt 2%N)])]] in
+  mapM (fun a => ref_eval a Null) args = ([Str (lit "x")], Ok [Str (lit "x"); Num (PosInt 3%N)]) /\
+  name_of (lit "cat") = Some OCat /\ data_free OCat = true /\ documented OCat 2 = true /\
+  snd (apply (Obj [(lit "cat", Arr args)]) Null) = Ok (Str (lit "x3")).
+Proof. vm_compute. repeat split. Qed.
 
 (** data is inert even when it looks like an operation: the witnesses of the repaired defects *)
 Example C04_data_is_inert :
